@@ -83,6 +83,15 @@ def make_harness(spec_name, spec_fn, T, third=False, spec_fam=""):
                     out0 = call(W.NPX, x)
                 except Exception:
                     raise Skip("NumPy rejects")
+                if isinstance(out0, onp.ndarray) and onp.iscomplexobj(out0) and cmode == "no":
+                    # complex-valued result of real operands (the FFT family): differentiate its realification [Re, Im] to second / third order
+                    call_c = call
+
+                    def call(np_, xx):
+                        out_ = call_c(np_, xx)
+                        return np_.concatenate([np_.reshape(np_.real(out_), (-1,)), np_.reshape(np_.imag(out_), (-1,))])
+                    out0 = call(W.NPX, x)
+                    cmode = "output-realified"
                 if not isinstance(out0, (onp.ndarray, float, onp.floating)) or onp.iscomplexobj(out0):
                     raise Skip("container/complex output")
                 if not onp.all(onp.isfinite(onp.asarray(out0, dtype=float))):
@@ -251,11 +260,15 @@ def _differ(A, B):
         return bool(onp.max(onp.abs(A[ok] - B[ok]) / (1 + onp.abs(B[ok]))) > TOL_ROUTES)
 
 
+# the FFT family: complex results of real operands are differentiated through their realification [Re, Im]
+FFT_SECOND_ORDER = True
+
+
 def _table():
     specs = J.load_catalog()
     table = {}
     for name, (fn, fam) in specs.items():
-        if fam == "F":
+        if fam == "F" and not FFT_SECOND_ORDER:
             continue
 
         def factory(quick, seed, name=name, fn=fn, fam=fam):
